@@ -226,6 +226,7 @@ def run_tlc(pid, module, cfg=None, env=None, workers=8, timeout=600, simulate=No
     jopts = "-Xss1g"
     if dfs:
         jopts += " -Dtlc2.tool.queue.IStateQueue=StateDeque"
+    jopts += " -Djava.io.tmpdir=" + meta       # (TLC leaves an empty tlc-* directory per run in the temp dir)
     e = dict(os.environ)
     e["JAVA_TOOL_OPTIONS"] = jopts
     if env:
